@@ -98,10 +98,13 @@ def displaced(v):
     return [mask, off + 1], "one byte later"
 
 
-def battery(module, attr):
+def battery(module, attr, variant="displace"):
     m = module.rsplit(".", 1)[-1]
     if attr.endswith("_cdb_bits"):
-        return ["C01", "C02", "C13"]
+        # (the encoder does not mask values, so a narrowed mask only shows when a CDB is decoded again)
+        return ["C01", "C02", "C13"] if variant == "displace" else ["C02"]
+    if variant == "narrow":
+        return ["C04", "C06"]
     if m == "scsi_sense":
         return ["C08", "C07"]
     if m in ("scsi_cdb_persistentreserveout",) or "extended_copy" in m:
@@ -129,7 +132,7 @@ def one(job, scale, variant="displace"):
         os.makedirs(out, exist_ok=True)
         env = dict(os.environ, PYSCSI_VERIF_REPO=d, VERIF_OUT=out, VERIF_SEED="1", VERIF_N_SCALE=str(scale),
                    VERIF_MAX_SHARDS="4")
-        for prop in battery(module, attr):
+        for prop in battery(module, attr, variant):
             t0 = time.time()
             p = subprocess.run([os.path.join(VERIF, "check"), prop, "--tier", "quick"], cwd=VERIF, env=env,
                                capture_output=True, text=True, timeout=1800)
